@@ -149,8 +149,11 @@ class _FilesystemDataSource(DataSource):
         if not os.path.exists(non_versioned_path):
             result = False
         else:
+            # A link left empty or truncated by an interrupted write resolves to something
+            # that is not a stored object (an empty link resolves to the current directory):
+            # only an existing file counts, so that the key is written again.
             path = self._read_non_versioned_link(key)
-            result = path.exists()
+            result = path.is_file()
         log.debug("Exists {}? {}".format(key, result))
         return result
 
